@@ -20,8 +20,8 @@ SRC = os.path.join(REPO, "src")
 ENGINE_SRC = os.path.join(SRC, "strengths", "engines", "strengths_engine", "src")
 BUILD = os.path.join(VERIF, ".build")
 DEPS = os.path.join(VERIF, ".deps")
-EVIDENCE = os.path.join(VERIF, "evidence")
-REPLAYS = os.path.join(VERIF, "replays")
+EVIDENCE = os.environ.get("VERIF_EVIDENCE_DIR") or os.path.join(VERIF, "evidence")
+REPLAYS = os.path.join(os.environ["VERIF_EVIDENCE_DIR"], "replays") if os.environ.get("VERIF_EVIDENCE_DIR") else os.path.join(VERIF, "replays")
 SCRATCH = os.path.join(VERIF, ".scratch")
 PY = "/venv/bin/python"
 
